@@ -551,4 +551,496 @@ theorem specToNameList_mono : ∀ (ts : List (Term β)) (env : List Int) (c : In
 end
 end
 
+-- ---------------------------------------------------------------- round trip index → name → index
+
+theorem Fresh.cons {env : List Int} {c : Int} (h : Fresh env c) : Fresh (c :: env) (c + 1) := by
+  refine ⟨List.nodup_cons.mpr ⟨fun hm => ?_, h.1⟩, fun u hu => ?_⟩
+  · have := h.2 c hm; omega
+  · rcases List.mem_cons.mp hu with rfl | hu
+    · omega
+    · have := h.2 u hu; omega
+
+theorem Fresh.mono {env : List Int} {c c' : Int} (h : Fresh env c) (hc : c ≤ c') : Fresh env c' :=
+  ⟨h.1, fun u hu => by have := h.2 u hu; omega⟩
+
+theorem Fresh.nil : Fresh [] 0 := ⟨List.nodup_nil, fun _ h => by simp at h⟩
+
+section
+variable {β γ : Type} (idx : β → Nat) (txt : β → Int → String)
+variable (mk : String → Nat → γ) (g : β → Nat → γ) (hg : ∀ n u i, mk (txt n u) i = g n i)
+include hg
+
+mutual
+/-- index → name → index gives the original index term back (binder indices normalised) -/
+theorem roundtrip_gen : ∀ (t : Term β) (env : List Int) (c : Int) (r : Term Name × Int),
+    specToName idx txt env c t = .ok r → Fresh env c → specNameTo mk env r.1 = .ok (normBinders g idx t)
+  | .var n, env, c, r, h, hf => by
+    cases hi : idx n with
+    | zero => simp [specToName, hi] at h
+    | succ j =>
+      cases hj : env[j]? with
+      | none => simp [specToName, hi, hj] at h
+      | some u =>
+        simp [specToName, hi, hj] at h
+        subst h
+        simp [specNameTo, normBinders, resolve_of_getElem env j u hf.1 hj, hi, hg]
+  | .delay t, env, c, r, h, hf => by
+    simp only [specToName, bind, Except.bind] at h
+    cases ht : specToName idx txt env c t with
+    | error e => simp [ht] at h
+    | ok r1 =>
+      simp [ht, pure, Except.pure] at h
+      subst h
+      simp [specNameTo, normBinders, roundtrip_gen t env c r1 ht hf, bind, Except.bind, pure, Except.pure]
+  | .force t, env, c, r, h, hf => by
+    simp only [specToName, bind, Except.bind] at h
+    cases ht : specToName idx txt env c t with
+    | error e => simp [ht] at h
+    | ok r1 =>
+      simp [ht, pure, Except.pure] at h
+      subst h
+      simp [specNameTo, normBinders, roundtrip_gen t env c r1 ht hf, bind, Except.bind, pure, Except.pure]
+  | .lam m b, env, c, r, h, hf => by
+    simp only [specToName, bind, Except.bind] at h
+    cases ht : specToName idx txt (c :: env) (c + 1) b with
+    | error e => simp [ht] at h
+    | ok r1 =>
+      simp [ht, pure, Except.pure] at h
+      subst h
+      simp [specNameTo, normBinders, roundtrip_gen b (c :: env) (c + 1) r1 ht hf.cons, bind, Except.bind, pure, Except.pure, hg]
+  | .app f a, env, c, r, h, hf => by
+    simp only [specToName, bind, Except.bind] at h
+    cases hf' : specToName idx txt env c f with
+    | error e => simp [hf'] at h
+    | ok r1 =>
+      simp only [hf'] at h
+      cases ha : specToName idx txt env r1.2 a with
+      | error e => simp [ha] at h
+      | ok r2 =>
+        simp [ha, pure, Except.pure] at h
+        subst h
+        have h1 := roundtrip_gen f env c r1 hf' hf
+        have h2 := roundtrip_gen a env r1.2 r2 ha (hf.mono (specToName_mono idx txt f env c r1 hf'))
+        simp [specNameTo, normBinders, h1, h2, bind, Except.bind, pure, Except.pure]
+  | .const _, _, c, r, h, _ => by simp [specToName, pure, Except.pure] at h; subst h; simp [specNameTo, normBinders, pure, Except.pure]
+  | .error, _, c, r, h, _ => by simp [specToName, pure, Except.pure] at h; subst h; simp [specNameTo, normBinders, pure, Except.pure]
+  | .builtin _, _, c, r, h, _ => by simp [specToName, pure, Except.pure] at h; subst h; simp [specNameTo, normBinders, pure, Except.pure]
+  | .constr tag fs, env, c, r, h, hf => by
+    simp only [specToName, bind, Except.bind] at h
+    cases ht : specToNameList idx txt env c fs with
+    | error e => simp [ht] at h
+    | ok r1 =>
+      simp [ht, pure, Except.pure] at h
+      subst h
+      simp [specNameTo, normBinders, roundtripList_gen fs env c r1 ht hf, bind, Except.bind, pure, Except.pure]
+  | .case s bs, env, c, r, h, hf => by
+    simp only [specToName, bind, Except.bind] at h
+    cases hf' : specToName idx txt env c s with
+    | error e => simp [hf'] at h
+    | ok r1 =>
+      simp only [hf'] at h
+      cases ha : specToNameList idx txt env r1.2 bs with
+      | error e => simp [ha] at h
+      | ok r2 =>
+        simp [ha, pure, Except.pure] at h
+        subst h
+        have h1 := roundtrip_gen s env c r1 hf' hf
+        have h2 := roundtripList_gen bs env r1.2 r2 ha (hf.mono (specToName_mono idx txt s env c r1 hf'))
+        simp [specNameTo, normBinders, h1, h2, bind, Except.bind, pure, Except.pure]
+theorem roundtripList_gen : ∀ (ts : List (Term β)) (env : List Int) (c : Int) (r : List (Term Name) × Int),
+    specToNameList idx txt env c ts = .ok r → Fresh env c → specNameToList mk env r.1 = .ok (normBindersList g idx ts)
+  | [], _, c, r, h, _ => by simp [specToNameList, pure, Except.pure] at h; subst h; simp [specNameToList, normBindersList, pure, Except.pure]
+  | t :: ts, env, c, r, h, hf => by
+    simp only [specToNameList, bind, Except.bind] at h
+    cases hf' : specToName idx txt env c t with
+    | error e => simp [hf'] at h
+    | ok r1 =>
+      simp only [hf'] at h
+      cases ha : specToNameList idx txt env r1.2 ts with
+      | error e => simp [ha] at h
+      | ok r2 =>
+        simp [ha, pure, Except.pure] at h
+        subst h
+        have h1 := roundtrip_gen t env c r1 hf' hf
+        have h2 := roundtripList_gen ts env r1.2 r2 ha (hf.mono (specToName_mono idx txt t env c r1 hf'))
+        simp [specNameToList, normBindersList, h1, h2, bind, Except.bind, pure, Except.pure]
+end
+end
+
+-- ---------------------------------------------------------------- name → index → name is alpha-equivalent
+section
+variable {β : Type} (idx : β → Nat) (txt : β → Int → String)
+variable (mk : String → Nat → β) (hidx : ∀ s i, idx (mk s i) = i)
+include hidx
+
+mutual
+/-- name → index → name is alpha-equivalent to the original -/
+theorem alpha_gen : ∀ (t : Term Name) (e1 : List Int) (d : Term β), specNameTo mk e1 t = .ok d →
+    ∀ (e2 : List Int) (c : Int) (r : Term Name × Int), specToName idx txt e2 c d = .ok r → Fresh e2 c →
+      AlphaEq e1 e2 t r.1
+  | .var n, e1, d, h, e2, c, r, h2, hf => by
+    cases hr : resolve e1 n.unique with
+    | none => simp [specNameTo, hr] at h
+    | some i =>
+      simp [specNameTo, hr] at h
+      subst h
+      have hb := resolve_bounds e1 n.unique i hr
+      cases i with
+      | zero => omega
+      | succ j =>
+        cases hj : e2[j]? with
+        | none => simp [specToName, hidx, hj] at h2
+        | some u =>
+          simp [specToName, hidx, hj] at h2
+          subst h2
+          refine AlphaEq.var ?_ ?_
+          · simp [hr, resolve_of_getElem e2 j u hf.1 hj]
+          · simp [hr]
+  | .delay t, e1, d, h, e2, c, r, h2, hf => by
+    simp only [specNameTo, bind, Except.bind] at h
+    cases ht : specNameTo mk e1 t with
+    | error e => simp [ht] at h
+    | ok d1 =>
+      simp [ht, pure, Except.pure] at h
+      subst h
+      simp only [specToName, bind, Except.bind] at h2
+      cases hs : specToName idx txt e2 c d1 with
+      | error e => simp [hs] at h2
+      | ok r1 =>
+        simp [hs, pure, Except.pure] at h2
+        subst h2
+        exact AlphaEq.delay (alpha_gen t e1 d1 ht e2 c r1 hs hf)
+  | .force t, e1, d, h, e2, c, r, h2, hf => by
+    simp only [specNameTo, bind, Except.bind] at h
+    cases ht : specNameTo mk e1 t with
+    | error e => simp [ht] at h
+    | ok d1 =>
+      simp [ht, pure, Except.pure] at h
+      subst h
+      simp only [specToName, bind, Except.bind] at h2
+      cases hs : specToName idx txt e2 c d1 with
+      | error e => simp [hs] at h2
+      | ok r1 =>
+        simp [hs, pure, Except.pure] at h2
+        subst h2
+        exact AlphaEq.force (alpha_gen t e1 d1 ht e2 c r1 hs hf)
+  | .lam m b, e1, d, h, e2, c, r, h2, hf => by
+    simp only [specNameTo, bind, Except.bind] at h
+    cases ht : specNameTo mk (m.unique :: e1) b with
+    | error e => simp [ht] at h
+    | ok d1 =>
+      simp [ht, pure, Except.pure] at h
+      subst h
+      simp only [specToName, bind, Except.bind] at h2
+      cases hs : specToName idx txt (c :: e2) (c + 1) d1 with
+      | error e => simp [hs] at h2
+      | ok r1 =>
+        simp [hs, pure, Except.pure] at h2
+        subst h2
+        exact AlphaEq.lam (alpha_gen b (m.unique :: e1) d1 ht (c :: e2) (c + 1) r1 hs hf.cons)
+  | .app f a, e1, d, h, e2, c, r, h2, hf => by
+    simp only [specNameTo, bind, Except.bind] at h
+    cases hf1 : specNameTo mk e1 f with
+    | error e => simp [hf1] at h
+    | ok d1 =>
+      simp only [hf1] at h
+      cases ha1 : specNameTo mk e1 a with
+      | error e => simp [ha1] at h
+      | ok d2 =>
+        simp [ha1, pure, Except.pure] at h
+        subst h
+        simp only [specToName, bind, Except.bind] at h2
+        cases hs1 : specToName idx txt e2 c d1 with
+        | error e => simp [hs1] at h2
+        | ok r1 =>
+          simp only [hs1] at h2
+          cases hs2 : specToName idx txt e2 r1.2 d2 with
+          | error e => simp [hs2] at h2
+          | ok r2 =>
+            simp [hs2, pure, Except.pure] at h2
+            subst h2
+            exact AlphaEq.app (alpha_gen f e1 d1 hf1 e2 c r1 hs1 hf)
+              (alpha_gen a e1 d2 ha1 e2 r1.2 r2 hs2 (hf.mono (specToName_mono idx txt d1 e2 c r1 hs1)))
+  | .const _, _, d, h, _, c, r, h2, _ => by
+    simp [specNameTo, pure, Except.pure] at h; subst h
+    simp [specToName, pure, Except.pure] at h2; subst h2; exact AlphaEq.const
+  | .error, _, d, h, _, c, r, h2, _ => by
+    simp [specNameTo, pure, Except.pure] at h; subst h
+    simp [specToName, pure, Except.pure] at h2; subst h2; exact AlphaEq.error
+  | .builtin _, _, d, h, _, c, r, h2, _ => by
+    simp [specNameTo, pure, Except.pure] at h; subst h
+    simp [specToName, pure, Except.pure] at h2; subst h2; exact AlphaEq.builtin
+  | .constr tag fs, e1, d, h, e2, c, r, h2, hf => by
+    simp only [specNameTo, bind, Except.bind] at h
+    cases ht : specNameToList mk e1 fs with
+    | error e => simp [ht] at h
+    | ok d1 =>
+      simp [ht, pure, Except.pure] at h
+      subst h
+      simp only [specToName, bind, Except.bind] at h2
+      cases hs : specToNameList idx txt e2 c d1 with
+      | error e => simp [hs] at h2
+      | ok r1 =>
+        simp [hs, pure, Except.pure] at h2
+        subst h2
+        exact AlphaEq.constr (alphaList_gen fs e1 d1 ht e2 c r1 hs hf)
+  | .case s bs, e1, d, h, e2, c, r, h2, hf => by
+    simp only [specNameTo, bind, Except.bind] at h
+    cases hf1 : specNameTo mk e1 s with
+    | error e => simp [hf1] at h
+    | ok d1 =>
+      simp only [hf1] at h
+      cases ha1 : specNameToList mk e1 bs with
+      | error e => simp [ha1] at h
+      | ok d2 =>
+        simp [ha1, pure, Except.pure] at h
+        subst h
+        simp only [specToName, bind, Except.bind] at h2
+        cases hs1 : specToName idx txt e2 c d1 with
+        | error e => simp [hs1] at h2
+        | ok r1 =>
+          simp only [hs1] at h2
+          cases hs2 : specToNameList idx txt e2 r1.2 d2 with
+          | error e => simp [hs2] at h2
+          | ok r2 =>
+            simp [hs2, pure, Except.pure] at h2
+            subst h2
+            exact AlphaEq.case (alpha_gen s e1 d1 hf1 e2 c r1 hs1 hf)
+              (alphaList_gen bs e1 d2 ha1 e2 r1.2 r2 hs2 (hf.mono (specToName_mono idx txt d1 e2 c r1 hs1)))
+theorem alphaList_gen : ∀ (ts : List (Term Name)) (e1 : List Int) (d : List (Term β)), specNameToList mk e1 ts = .ok d →
+    ∀ (e2 : List Int) (c : Int) (r : List (Term Name) × Int), specToNameList idx txt e2 c d = .ok r → Fresh e2 c →
+      AlphaEqL e1 e2 ts r.1
+  | [], _, d, h, _, c, r, h2, _ => by
+    simp [specNameToList, pure, Except.pure] at h; subst h
+    simp [specToNameList, pure, Except.pure] at h2; subst h2; exact AlphaEqL.nil
+  | t :: ts, e1, d, h, e2, c, r, h2, hf => by
+    simp only [specNameToList, bind, Except.bind] at h
+    cases hf1 : specNameTo mk e1 t with
+    | error e => simp [hf1] at h
+    | ok d1 =>
+      simp only [hf1] at h
+      cases ha1 : specNameToList mk e1 ts with
+      | error e => simp [ha1] at h
+      | ok d2 =>
+        simp [ha1, pure, Except.pure] at h
+        subst h
+        simp only [specToNameList, bind, Except.bind] at h2
+        cases hs1 : specToName idx txt e2 c d1 with
+        | error e => simp [hs1] at h2
+        | ok r1 =>
+          simp only [hs1] at h2
+          cases hs2 : specToNameList idx txt e2 r1.2 d2 with
+          | error e => simp [hs2] at h2
+          | ok r2 =>
+            simp [hs2, pure, Except.pure] at h2
+            subst h2
+            exact AlphaEqL.cons (alpha_gen t e1 d1 hf1 e2 c r1 hs1 hf)
+              (alphaList_gen ts e1 d2 ha1 e2 r1.2 r2 hs2 (hf.mono (specToName_mono idx txt d1 e2 c r1 hs1)))
+end
+
+mutual
+/-- the output of name → index is well-scoped -/
+theorem specNameTo_closed : ∀ (t : Term Name) (env : List Int) (d : Term β), specNameTo mk env t = .ok d →
+    closedI idx env.length d = true
+  | .var n, env, d, h => by
+    cases hr : resolve env n.unique with
+    | none => simp [specNameTo, hr] at h
+    | some i =>
+      simp [specNameTo, hr] at h
+      subst h
+      have := resolve_bounds env n.unique i hr
+      simp [closedI, hidx]; omega
+  | .delay t, env, d, h => by
+    simp only [specNameTo, bind, Except.bind] at h
+    cases ht : specNameTo mk env t with
+    | error e => simp [ht] at h
+    | ok d1 =>
+      simp [ht, pure, Except.pure] at h; subst h
+      simpa [closedI] using specNameTo_closed t env d1 ht
+  | .force t, env, d, h => by
+    simp only [specNameTo, bind, Except.bind] at h
+    cases ht : specNameTo mk env t with
+    | error e => simp [ht] at h
+    | ok d1 =>
+      simp [ht, pure, Except.pure] at h; subst h
+      simpa [closedI] using specNameTo_closed t env d1 ht
+  | .lam m b, env, d, h => by
+    simp only [specNameTo, bind, Except.bind] at h
+    cases ht : specNameTo mk (m.unique :: env) b with
+    | error e => simp [ht] at h
+    | ok d1 =>
+      simp [ht, pure, Except.pure] at h; subst h
+      simpa [closedI] using specNameTo_closed b (m.unique :: env) d1 ht
+  | .app f a, env, d, h => by
+    simp only [specNameTo, bind, Except.bind] at h
+    cases hf1 : specNameTo mk env f with
+    | error e => simp [hf1] at h
+    | ok d1 =>
+      simp only [hf1] at h
+      cases ha1 : specNameTo mk env a with
+      | error e => simp [ha1] at h
+      | ok d2 =>
+        simp [ha1, pure, Except.pure] at h; subst h
+        simp [closedI, specNameTo_closed f env d1 hf1, specNameTo_closed a env d2 ha1]
+  | .const _, _, d, h => by simp [specNameTo, pure, Except.pure] at h; subst h; simp [closedI]
+  | .error, _, d, h => by simp [specNameTo, pure, Except.pure] at h; subst h; simp [closedI]
+  | .builtin _, _, d, h => by simp [specNameTo, pure, Except.pure] at h; subst h; simp [closedI]
+  | .constr tag fs, env, d, h => by
+    simp only [specNameTo, bind, Except.bind] at h
+    cases ht : specNameToList mk env fs with
+    | error e => simp [ht] at h
+    | ok d1 =>
+      simp [ht, pure, Except.pure] at h; subst h
+      simpa [closedI] using specNameToList_closed fs env d1 ht
+  | .case s bs, env, d, h => by
+    simp only [specNameTo, bind, Except.bind] at h
+    cases hf1 : specNameTo mk env s with
+    | error e => simp [hf1] at h
+    | ok d1 =>
+      simp only [hf1] at h
+      cases ha1 : specNameToList mk env bs with
+      | error e => simp [ha1] at h
+      | ok d2 =>
+        simp [ha1, pure, Except.pure] at h; subst h
+        simp [closedI, specNameTo_closed s env d1 hf1, specNameToList_closed bs env d2 ha1]
+theorem specNameToList_closed : ∀ (ts : List (Term Name)) (env : List Int) (d : List (Term β)), specNameToList mk env ts = .ok d →
+    closedIList idx env.length d = true
+  | [], _, d, h => by simp [specNameToList, pure, Except.pure] at h; subst h; simp [closedIList]
+  | t :: ts, env, d, h => by
+    simp only [specNameToList, bind, Except.bind] at h
+    cases hf1 : specNameTo mk env t with
+    | error e => simp [hf1] at h
+    | ok d1 =>
+      simp only [hf1] at h
+      cases ha1 : specNameToList mk env ts with
+      | error e => simp [ha1] at h
+      | ok d2 =>
+        simp [ha1, pure, Except.pure] at h; subst h
+        simp [closedIList, specNameTo_closed t env d1 hf1, specNameToList_closed ts env d2 ha1]
+end
+end
+
+-- ---------------------------------------------------------------- AlphaEq ⇒ same de Bruijn image
+
+/-- the de Bruijn image used to compare binding structure -/
+abbrev dbImage (env : List Int) (t : Term Name) : Except Err (Term DeBruijn) :=
+  specNameTo (fun _ i => (i : DeBruijn)) env t
+abbrev dbImageList (env : List Int) (ts : List (Term Name)) : Except Err (List (Term DeBruijn)) :=
+  specNameToList (fun _ i => (i : DeBruijn)) env ts
+
+mutual
+/-- alpha-equivalent terms have the same de Bruijn image (so `AlphaEq` is not weaker than
+"every variable refers to the same binder") -/
+theorem alpha_sound : ∀ (t : Term Name) (e1 e2 : List Int) (t' : Term Name), AlphaEq e1 e2 t t' →
+    ∀ d, dbImage e1 t = .ok d → dbImage e2 t' = .ok d
+  | .var n, e1, e2, t', h, d, hd => by
+    cases h with
+    | var h1 h2 =>
+      cases hr : resolve e1 n.unique with
+      | none => simp [dbImage, specNameTo, hr] at hd
+      | some i =>
+        simp [dbImage, specNameTo, hr] at hd
+        subst hd
+        rw [hr] at h1
+        simp [dbImage, specNameTo, ← h1]
+  | .delay t, e1, e2, t', h, d, hd => by
+    cases h with
+    | delay h1 =>
+      simp only [dbImage, specNameTo, bind, Except.bind] at hd ⊢
+      cases ht : specNameTo (fun _ i => (i : DeBruijn)) e1 t with
+      | error e => simp [ht] at hd
+      | ok d1 =>
+        simp [ht, pure, Except.pure] at hd; subst hd
+        have := alpha_sound t e1 e2 _ h1 d1 ht
+        simp only [dbImage] at this
+        simp [this, pure, Except.pure]
+  | .force t, e1, e2, t', h, d, hd => by
+    cases h with
+    | force h1 =>
+      simp only [dbImage, specNameTo, bind, Except.bind] at hd ⊢
+      cases ht : specNameTo (fun _ i => (i : DeBruijn)) e1 t with
+      | error e => simp [ht] at hd
+      | ok d1 =>
+        simp [ht, pure, Except.pure] at hd; subst hd
+        have := alpha_sound t e1 e2 _ h1 d1 ht
+        simp only [dbImage] at this
+        simp [this, pure, Except.pure]
+  | .lam m b, e1, e2, t', h, d, hd => by
+    cases h with
+    | lam h1 =>
+      simp only [dbImage, specNameTo, bind, Except.bind] at hd ⊢
+      cases ht : specNameTo (fun _ i => (i : DeBruijn)) (m.unique :: e1) b with
+      | error e => simp [ht] at hd
+      | ok d1 =>
+        simp [ht, pure, Except.pure] at hd; subst hd
+        have := alpha_sound b _ _ _ h1 d1 ht
+        simp only [dbImage] at this
+        simp [this, pure, Except.pure]
+  | .app f a, e1, e2, t', h, d, hd => by
+    cases h with
+    | app h1 h2 =>
+      simp only [dbImage, specNameTo, bind, Except.bind] at hd ⊢
+      cases hf : specNameTo (fun _ i => (i : DeBruijn)) e1 f with
+      | error e => simp [hf] at hd
+      | ok d1 =>
+        simp only [hf] at hd
+        cases ha : specNameTo (fun _ i => (i : DeBruijn)) e1 a with
+        | error e => simp [ha] at hd
+        | ok d2 =>
+          simp [ha, pure, Except.pure] at hd; subst hd
+          have t1 := alpha_sound f e1 e2 _ h1 d1 hf
+          have t2 := alpha_sound a e1 e2 _ h2 d2 ha
+          simp only [dbImage] at t1 t2
+          simp [t1, t2, pure, Except.pure]
+  | .const _, _, _, _, h, d, hd => by cases h; exact hd
+  | .error, _, _, _, h, d, hd => by cases h; exact hd
+  | .builtin _, _, _, _, h, d, hd => by cases h; exact hd
+  | .constr tag fs, e1, e2, t', h, d, hd => by
+    cases h with
+    | constr h1 =>
+      simp only [dbImage, specNameTo, bind, Except.bind] at hd ⊢
+      cases ht : specNameToList (fun _ i => (i : DeBruijn)) e1 fs with
+      | error e => simp [ht] at hd
+      | ok d1 =>
+        simp [ht, pure, Except.pure] at hd; subst hd
+        have := alphaList_sound fs e1 e2 _ h1 d1 ht
+        simp only [dbImageList] at this
+        simp [this, pure, Except.pure]
+  | .case s bs, e1, e2, t', h, d, hd => by
+    cases h with
+    | case h1 h2 =>
+      simp only [dbImage, specNameTo, bind, Except.bind] at hd ⊢
+      cases hf : specNameTo (fun _ i => (i : DeBruijn)) e1 s with
+      | error e => simp [hf] at hd
+      | ok d1 =>
+        simp only [hf] at hd
+        cases ha : specNameToList (fun _ i => (i : DeBruijn)) e1 bs with
+        | error e => simp [ha] at hd
+        | ok d2 =>
+          simp [ha, pure, Except.pure] at hd; subst hd
+          have t1 := alpha_sound s e1 e2 _ h1 d1 hf
+          have t2 := alphaList_sound bs e1 e2 _ h2 d2 ha
+          simp only [dbImage, dbImageList] at t1 t2
+          simp [t1, t2, pure, Except.pure]
+theorem alphaList_sound : ∀ (ts : List (Term Name)) (e1 e2 : List Int) (ts' : List (Term Name)), AlphaEqL e1 e2 ts ts' →
+    ∀ d, dbImageList e1 ts = .ok d → dbImageList e2 ts' = .ok d
+  | [], _, _, _, h, d, hd => by cases h; exact hd
+  | t :: ts, e1, e2, ts', h, d, hd => by
+    cases h with
+    | cons h1 h2 =>
+      simp only [dbImageList, specNameToList, bind, Except.bind] at hd ⊢
+      cases hf : specNameTo (fun _ i => (i : DeBruijn)) e1 t with
+      | error e => simp [hf] at hd
+      | ok d1 =>
+        simp only [hf] at hd
+        cases ha : specNameToList (fun _ i => (i : DeBruijn)) e1 ts with
+        | error e => simp [ha] at hd
+        | ok d2 =>
+          simp [ha, pure, Except.pure] at hd; subst hd
+          have t1 := alpha_sound t e1 e2 _ h1 d1 hf
+          have t2 := alphaList_sound ts e1 e2 _ h2 d2 ha
+          simp only [dbImage, dbImageList] at t1 t2
+          simp [t1, t2, pure, Except.pure]
+end
+
 end AikenVerif.Db
